@@ -175,8 +175,56 @@ def main():
     spec = CHECKS[pid]
     t0 = time.time()
     built = {}
-    all_results, all_crashes, per_part = [], [], []
+    per_part = []
     nondet = []
+    isv = spec["is_violation"]
+    DIST_CAP = 6000000   # distinct-counting sets stop growing here (the count then is a lower bound)
+
+    class Agg:
+        """streaming aggregation: nothing but counters, hash sets, a few samples and the violating runs is kept in memory"""
+        def __init__(self):
+            self.n = 0; self.crashed = 0
+            self.nontrivial = set(); self.full = set(); self.inter = set(); self.sigs = set(); self.capped = False
+            self.fault_total = collections.Counter(); self.fault_runs = collections.Counter()
+            self.probes = collections.Counter(); self.verdicts = collections.Counter()
+            self.worlds = 0; self.vtime = 0.0; self.steps = 0
+            self.samples = []; self.cand = []; self.unsupported = []; self.det = {}
+        def add(self, r, pi, part):
+            self.n += 1
+            r["_part"] = pi
+            st = r.get("stats", {})
+            P = P_of(r)
+            m = re.search(r"\bomp=(\d+)", r.get("cfg", ""))
+            T = int(m.group(1)) if m else 1
+            nt = P >= 2
+            if pid == "C06": nt = P >= 2 or (T >= 2 and st.get("omp_regions", 0) > 0)
+            if pid == "C13": nt = r.get("probes", {}).get("nontrivial_history", 0) > 0
+            if pid == "C17": nt = (st.get("collectives", 0) + st.get("matches", 0) > 0) or r.get("harness") == "c17_workflow"
+            h = r.get("harness"); oh = r.get("ohash", r["hash"])
+            if len(self.full) < DIST_CAP:
+                if nt: self.nontrivial.add(hash((h, oh, r.get("sig", ""))))
+                self.full.add(hash((h, r["hash"]))); self.inter.add(hash((h, oh)))
+                if r.get("sig"): self.sigs.add(hash(r["sig"]))
+            else:
+                self.capped = True
+            for name, key in FAULTS.items():
+                v = st.get(key, 0)
+                if v: self.fault_total[name] += v; self.fault_runs[name] += 1
+            for k2, v in r.get("probes", {}).items():
+                if v: self.probes[k2] += 1
+            self.verdicts[r["verdict"]] += 1
+            self.worlds += r.get("nworlds", 0); self.vtime += st.get("vtime", 0); self.steps += st.get("steps", 0)
+            if self.n % 50 == 1 and len(self.det.setdefault(pi, [])) < 64: self.det[pi].append((r["seed"], r["hash"], r["verdict"]))
+            if len(self.samples) < 6 and self.n in (1, 7, 61, 433, 2999, 20011): self.samples.append(dict(harness=h, seed=r["seed"], cfg=r.get("cfg"), event_hash=r["hash"], interleaving_signature=oh, verdict=r["verdict"], steps=st.get("steps"), sig=r.get("sig", "")[:120]))
+            if isv(r) and len(self.cand) < 20000: self.cand.append(r)
+            if r["verdict"] == "sim-unsupported" and len(self.unsupported) < 10: self.unsupported.append(r)
+        def add_crash(self, c, pi):
+            self.crashed += 1
+            c["_part"] = pi; c.setdefault("cfg", ""); c.setdefault("hash", "crash"); c.setdefault("stats", {}); c.setdefault("probes", {}); c.setdefault("ubsan", []); c.setdefault("sig", "")
+            self.verdicts[c["verdict"]] += 1
+            if (isv(c) or pid != "C17") and len(self.cand) < 20000: self.cand.append(c)
+    agg = Agg()
+
     for pi, part in enumerate(spec["parts"][tier]):
         exe = exe_for(part, built)
         if not exe:
@@ -184,46 +232,47 @@ def main():
         seed0 = base * 100000000 + pi * 10000000
         nruns = max(16, int(part["runs"] * scale))
         tb = time.time()
-        res, crashes = vlib.run_batch(exe, seed0, nruns, part["tl"] * max(1.0, scale), cfg=part.get("cfg", ""), extra=["--watchdog", str(watchdog_of(part))],
-                                      wrapper=vlib.VALGRIND if part.get("valgrind") else None)
-        for r in res: r["_part"] = pi
-        for c in crashes: c["_part"] = pi; c.setdefault("cfg", ""); c.setdefault("hash", "crash"); c.setdefault("stats", {}); c.setdefault("probes", {}); c.setdefault("ubsan", []); c.setdefault("sig", "")
+        n_before = agg.n
+        sat_rows = [] if part.get("saturation") else None
+        def on_result(r, pi=pi, part=part, sat_rows=sat_rows):
+            agg.add(r, pi, part)
+            if sat_rows is not None: sat_rows.append((r["seed"], r.get("ohash", r["hash"]), r.get("phash", r["hash"]), r.get("sig", "")))
+        _, crashes = vlib.run_batch(exe, seed0, nruns, part["tl"] * max(1.0, scale), cfg=part.get("cfg", ""), extra=["--watchdog", str(watchdog_of(part))],
+                                    wrapper=vlib.VALGRIND if part.get("valgrind") else None, on_result=on_result, keep=False)
+        for c in crashes: agg.add_crash(c, pi)
         wall = time.time() - tb
+        nres = agg.n - n_before
         sat = None
-        if part.get("saturation"):
+        if sat_rows is not None:
+            sat_rows.sort()
             seen, seenp, curve, curvep = set(), set(), [], []
-            rs_sorted = sorted(res, key=lambda r: r["seed"])
-            marks = set(int(len(rs_sorted) * f) for f in (0.125, 0.25, 0.5, 0.75, 1.0))
-            for i, r in enumerate(rs_sorted, 1):
-                seen.add(r.get("ohash", r["hash"])); seenp.add(r.get("phash", r["hash"]))
+            marks = set(int(len(sat_rows) * f) for f in (0.125, 0.25, 0.5, 0.75, 1.0))
+            for i, (_, oh, ph, _) in enumerate(sat_rows, 1):
+                seen.add(oh); seenp.add(ph)
                 if i in marks: curve.append([i, len(seen)]); curvep.append([i, len(seenp)])
-            sat = dict(cfg=part.get("cfg"), runs=len(rs_sorted), distinct_interleavings_vs_runs=curve,
+            sat = dict(cfg=part.get("cfg"), runs=len(sat_rows), distinct_interleavings_vs_runs=curve,
                        distinct_p2p_protocol_orders_vs_runs=curvep,
                        new_p2p_orders_in_last_quarter=(curvep[-1][1] - curvep[-2][1]) if len(curvep) >= 2 else None,
-                       distinct_job_to_rank_maps=len(set(r.get("sig", "") for r in rs_sorted)))
-        per_part.append(dict(part=part, runs=len(res), crashes=len(crashes), wall_s=round(wall, 2), seed_first=seed0, seed_last=seed0 + nruns - 1, saturation=sat))
-        log("%s/%s %s[%s%s]: %d runs (+%d crashed) in %.1fs" % (pid, tier, part["harness"], part["variant"], "-cx" if part.get("complex") else "", len(res), len(crashes), wall))
-        all_results += res; all_crashes += crashes
-    # determinism sample: rerun a 2% sample of the seeds in fresh processes, hashes must agree
+                       distinct_job_to_rank_maps=len(set(x[3] for x in sat_rows)))
+        per_part.append(dict(part=part, runs=nres, crashes=len(crashes), wall_s=round(wall, 2), seed_first=seed0, seed_last=seed0 + nruns - 1, saturation=sat))
+        log("%s/%s %s[%s%s]: %d runs (+%d crashed) in %.1fs" % (pid, tier, part["harness"], part["variant"], "-cx" if part.get("complex") else "", nres, len(crashes), wall))
+    # determinism sample: re-execute a 2% sample of the seeds (up to 64 per part) in fresh processes, hashes must agree
     det_checked = 0
     for pi, part in enumerate(spec["parts"][tier]):
         exe = exe_for(part, built)
-        mine = [r for r in all_results if r["_part"] == pi]
-        sample = mine[::50][:64]
-        for r in sample:
-            r2 = vlib.run_single(exe, r["seed"], cfg=part.get("cfg") or None)
+        for seed, h, v in agg.det.get(pi, []):
+            r2 = vlib.run_single(exe, seed, cfg=part.get("cfg") or None)
             det_checked += 1
-            if r2["hash"] != r["hash"] or r2["verdict"] != r["verdict"]:
-                nondet.append((r["seed"], r["hash"], r2["hash"], r["verdict"], r2["verdict"]))
+            if r2["hash"] != h or r2["verdict"] != v:
+                nondet.append((seed, h, r2["hash"], v, r2["verdict"]))
     if nondet:
         log("SIMULATOR NONDETERMINISM: %s" % nondet[:3])
         print("INCONCLUSIVE property=%s simulator nondeterminism on seeds %s" % (pid, [n[0] for n in nondet[:5]]))
         return 2
 
     # ---- violations
-    isv = spec["is_violation"]
-    cand = [r for r in all_results if isv(r)] + [c for c in all_crashes if isv(c) or pid != "C17"]
-    unsupported = [r for r in all_results if r["verdict"] == "sim-unsupported"]
+    cand = agg.cand
+    unsupported = agg.unsupported
     known = vlib.load_known(pid)
     groups = collections.OrderedDict()
     for r in cand:
@@ -302,42 +351,23 @@ def main():
     wall = time.time() - t0
 
     # ---- evidence
-    ok_runs = [r for r in all_results]
-    nontrivial = set()
-    for r in ok_runs:
-        P = P_of(r)
-        m = re.search(r"\bomp=(\d+)", r.get("cfg", ""))
-        T = int(m.group(1)) if m else 1
-        nt = P >= 2
-        if pid == "C06": nt = P >= 2 or (T >= 2 and r.get("stats", {}).get("omp_regions", 0) > 0)
-        if pid == "C13": nt = r.get("probes", {}).get("nontrivial_history", 0) > 0
-        if pid == "C17": nt = (r.get("stats", {}).get("collectives", 0) + r.get("stats", {}).get("matches", 0) > 0) or r.get("harness") == "c17_workflow"
-        if nt: nontrivial.add((r.get("harness"), r.get("ohash", r["hash"]), r.get("sig", "")))
-    faults = collections.OrderedDict()
-    for name, key in FAULTS.items():
-        faults[name] = dict(fired_total=sum(r.get("stats", {}).get(key, 0) for r in ok_runs), runs_where_fired=sum(1 for r in ok_runs if r.get("stats", {}).get(key, 0) > 0))
-    probes = collections.Counter()
-    for r in ok_runs:
-        for k2, v in r.get("probes", {}).items():
-            if v: probes[k2] += 1
-    verdicts = collections.Counter(r["verdict"] for r in all_results + all_crashes)
-    sigs = set(r.get("sig", "") for r in ok_runs if r.get("sig"))
-    samples = []
-    for r in ok_runs[:: max(1, len(ok_runs) // 6)][:6]:
-        samples.append(dict(harness=r.get("harness"), seed=r["seed"], cfg=r.get("cfg"), event_hash=r["hash"], verdict=r["verdict"], steps=r.get("stats", {}).get("steps"), sig=r.get("sig", "")[:120]))
-    nruns = len(all_results) + len(all_crashes)
+    faults = collections.OrderedDict((name, dict(fired_total=agg.fault_total[name], runs_where_fired=agg.fault_runs[name])) for name in FAULTS)
+    probes, verdicts, samples = agg.probes, agg.verdicts, agg.samples
+    nruns = agg.n + agg.crashed
+    nontrivial = agg.nontrivial
     ev = dict(
         property_id=pid, tier=tier, seed=base, level="exploration",
         coverage=dict(
             evaluations=nruns, distinct_nontrivial=len(nontrivial), rule=spec["rule"], samples=samples or [dict(note="no run completed")],
             exhaustive=False,
             runs_per_hour=int(nruns / max(wall, 1e-9) * 3600), seeds_per_hour=int(nruns / max(wall, 1e-9) * 3600),
-            simulated_worlds=sum(r.get("nworlds", 0) for r in ok_runs),
-            simulated_time_virtual_s=round(sum(r.get("stats", {}).get("vtime", 0) for r in ok_runs) * 1e-6, 3),
-            scheduling_steps=sum(r.get("stats", {}).get("steps", 0) for r in ok_runs),
+            simulated_worlds=agg.worlds,
+            simulated_time_virtual_s=round(agg.vtime * 1e-6, 3),
+            scheduling_steps=agg.steps,
             faults_injected=faults, probes_hit_runs=dict(probes), verdicts=dict(verdicts),
-            distinct_full_event_hashes=len(set((r.get("harness"), r["hash"]) for r in ok_runs)),
-            distinct_interleavings=len(set((r.get("harness"), r.get("ohash", r["hash"])) for r in ok_runs)), distinct_coverage_signatures=len(sigs),
+            distinct_full_event_hashes=len(agg.full),
+            distinct_interleavings=len(agg.inter), distinct_coverage_signatures=len(agg.sigs),
+            distinct_counts_are_lower_bounds=agg.capped,
             distinct_rule_note="distinct_nontrivial counts distinct (harness, interleaving signature, coverage signature) triples among non-trivial runs; the coverage signature is the job-to-rank map (C16), the sequence of ranks that received work orders (C06) or the operation history (C13, C17)",
             small_configuration_saturation=[p["saturation"] for p in per_part if p.get("saturation")],
             parts=[dict(harness=p["part"]["harness"], cfg_override=p["part"].get("cfg", ""), variant=p["part"]["variant"] + ("-complex" if p["part"].get("complex") else ""), runs=p["runs"], crashed=p["crashes"], wall_s=p["wall_s"], seeds="%d..%d" % (p["seed_first"], p["seed_last"])) for p in per_part],
